@@ -516,6 +516,14 @@ def _check_setters_getters(ctx, r, objs):
         h = helpers[hs[0].func.attr]
         hfm = _fmt_names_in(h.node, objs)
         gobj = objs[gfm[0]]
+        family_objs = [nm for nm, o in objs.items() if (o.get('exp_bits'), o.get('mantissa_bits'), o.get('bias'), o['__class__']) ==
+                       (gobj.get('exp_bits'), gobj.get('mantissa_bits'), gobj.get('bias'), gobj['__class__'])]
+        called = {x.func.value.id for x in own_walk(h.node) if isinstance(x, ast.Call) and isinstance(x.func, ast.Attribute)
+                  and x.func.attr.startswith('float_to_int') and isinstance(x.func.value, ast.Name)}
+        unused = [nm for nm in family_objs if nm not in called]
+        if unused:
+            r.fail(h.key, f"{e['name']}: {', '.join(unused)} never consulted", f"'{e['name']}' has a table per overflow mode ({', '.join(sorted(family_objs))}) but the "
+                   f"encoder never uses {', '.join(unused)}: values that round differently in that mode are encoded with the other mode's table", loc=h.loc())
         shape = lambda o: (o.get('exp_bits'), o.get('mantissa_bits'), o.get('bias'), o['__class__'])
         for nm in hfm:
             if shape(objs[nm]) != shape(gobj):
@@ -543,7 +551,7 @@ def _check_setters_getters(ctx, r, objs):
         r.ok(subs[0])
         # overflow-mode selection
         modes = {objs[nm].get('mxfp_overflow') for nm in hfm}
-        if len(hfm) > 1:
+        if len(hfm) > 1 and not unused:
             sel = [n for n in own_walk(h.node) if isinstance(n, ast.If) and 'mxfp_overflow' in ast.unparse(n.test)]
             if len(sel) != 1:
                 raise AnalysisError(f'{h.key}: overflow-mode selection not recognised')
